@@ -1,0 +1,11 @@
+//go:build verif
+
+package openapi
+
+// Contracts for govc (/verif). Comment-only file: invisible without -tags verif.
+
+// Determinism (C06). Both loops write r[key] for the loop key only; what is assumed is that the conversions called for
+// different keys do not influence each other (lazy compilation inside jsight-schema-core), and, for newResponses, that at most
+// one response code fails to convert (otherwise which error is returned first depends on the iteration order; no such input is known).
+//@ maporder makeResponseHeaders 1 result map is keyed by the loop key; per-key conversions are assumed independent
+//@ maporder newResponses 1 result map is keyed by the loop key; per-key conversions are assumed independent; early error return assumed to have a single candidate
